@@ -233,7 +233,7 @@ func runC18(e *Env) {
 	})
 
 	// ---- round trips ----
-	e.RunCases("round-trip", e.N(6000, 600000), 1, func(t *T) {
+	e.RunCases("round-trip", e.N(6000, 1500000), 1, func(t *T) {
 		r := t.R
 		a := genBindA(r)
 		format := pick(r, []string{"form", "multipart", "json", "xml", "query"})
@@ -335,7 +335,7 @@ func runC18(e *Env) {
 	})
 
 	// ---- malformed input ----
-	e.RunCases("malformed", e.N(8000, 800000), 1, func(t *T) {
+	e.RunCases("malformed", e.N(8000, 2000000), 1, func(t *T) {
 		r := t.R
 		ct := pick(r, ctypes)
 		method := pick(r, []string{"POST", "PUT", "PATCH", "POST", "GET"})
